@@ -82,6 +82,10 @@ func (s *Durable) store(tx *buntdb.Tx, key string, t Value) {
 	}
 
 	tx.Set(key, t.encode(), opts)
+
+	// Invalidate the read cache, we are within the write transaction so no reader can
+	// be in the middle of re-populating it with the previous value.
+	s.cache.Del(binary.ToBytes(key))
 }
 
 // Fetch fetches the item either from transaction or cache.
